@@ -87,8 +87,10 @@ class DiagCodedType:
             if not isinstance(internal_value, str):
                 odxraise()
 
-            # TODO: Handle different encodings
-            byte_length = len(bytes(internal_value, "utf-8"))
+            # the length of the value in the encoding which is used to
+            # represent it (A_ASCIISTRING: one byte per character)
+            str_encoding = "utf-8" if self.base_data_type == DataType.A_UTF8STRING else "iso-8859-1"
+            byte_length = len(internal_value.encode(str_encoding, errors="replace"))
         elif self.base_data_type == DataType.A_UNICODE2STRING:
             if not isinstance(internal_value, str):
                 odxraise()
